@@ -202,6 +202,13 @@ func (b *UnsafeLinkBuffer) Peek(n int) (p []byte, err error) {
 
 	// multiple nodes
 
+	// A slice returned by an earlier Peek stays valid until Release, so a cache block
+	// that has become too small is kept in caches (freed by Release) instead of being
+	// handed back to the pool while the caller may still be reading it.
+	if b.cachePeek != nil && cap(b.cachePeek) < n {
+		b.caches = append(b.caches, b.cachePeek)
+		b.cachePeek = nil
+	}
 	// try to make use of the cap of b.cachePeek, if can't, free it.
 	if b.cachePeek != nil && cap(b.cachePeek) < n {
 		free(b.cachePeek)
@@ -787,6 +794,12 @@ func (b *UnsafeLinkBuffer) indexByte(c byte, skip int) int {
 
 // recalLen re-calculate the length
 func (b *UnsafeLinkBuffer) recalLen(delta int) (length int) {
+	if delta < 0 && len(b.cachePeek) > 0 {
+		// The block backs slices that Peek has handed out and that stay valid until
+		// Release: retire it to caches instead of refilling it in place below.
+		b.caches = append(b.caches, b.cachePeek)
+		b.cachePeek = nil
+	}
 	if delta < 0 && len(b.cachePeek) > 0 {
 		// b.cachePeek will contain stale data if we read out even a single byte from buffer,
 		// so we need to reset it or the next Peek call will return invalid bytes.
